@@ -72,11 +72,16 @@ def chunkings(rng, sig, limit):
             res.append(c)
     # per-variable chunkings: every variable is cut at its own subset of its own time stamps
     if len(sig) > 1:
-        for _ in range(6):
+        for _ in range(10):
             pv = {}
             for v in sig:
                 tv = [t for (t, _) in sig[v]][1:]
                 pv[v] = sorted(rng.sample(tv, rng.randint(0, len(tv)))) if tv else []
+            if rng.random() < 0.5:
+                # spread the batches of each variable over more updates: some updates deliver nothing for a variable
+                nup = max(len(c) for c in pv.values()) + 1 + rng.randint(0, 2)
+                for v in list(pv):
+                    pv["@" + v] = sorted(rng.sample(range(nup), len(pv[v]) + 1))
             res.append(pv)
     return res
 
@@ -142,7 +147,8 @@ def explore(ctx, rng, count):
         (vals, _, _), = D.model_query([(f, sig, qs)])
         for cuts in chunkings(rng, sig, limit):
             pv = isinstance(cuts, dict)
-            case = {"f": f, "sig": sig, "nchunks": (max(len(c) for c in cuts.values()) if pv else len(cuts)) + 1, "per_variable": pv}
+            case = {"f": f, "sig": sig, "nchunks": (max(len(c) for k_, c in cuts.items() if not k_.startswith("@")) if pv else len(cuts)) + 1,
+                    "per_variable": pv}
             if disc.known_region(ctx, case, REGIONS):
                 ctx.skipped_known += 1
                 continue
@@ -163,7 +169,8 @@ def replay(ctx, obj):
     f = F.from_proto(obj["formula"])
     sig = {v: [(Fraction(t), float(x)) for t, x in s] for v, s in obj["signals"].items()}
     cuts = obj.get("cuts", [])
-    cuts = {v: [Fraction(c) for c in cs] for v, cs in cuts.items()} if isinstance(cuts, dict) else [Fraction(c) for c in cuts]
+    cuts = {v: ([int(c) for c in cs] if v.startswith("@") else [Fraction(c) for c in cs]) for v, cs in cuts.items()} \
+        if isinstance(cuts, dict) else [Fraction(c) for c in cuts]
     (_, dom, end), = D.model_query([(f, sig, [])])
     qs = D.query_times(sig, f, [], dom, end)
     (vals, _, _), = D.model_query([(f, sig, qs)])
@@ -172,8 +179,8 @@ def replay(ctx, obj):
 
 
 def run(ctx):
-    explore(ctx, ctx.subrng("on-c"), ctx.budget(120, 1500))
+    explore(ctx, ctx.subrng("on-c"), ctx.budget(400, 3000))
 
 
 def search(ctx):
-    explore(ctx, ctx.subrng("search"), ctx.budget(300, 1500))
+    explore(ctx, ctx.subrng("search"), ctx.budget(800, 3000))
